@@ -99,7 +99,7 @@ def foreign_variant(data_segments):
     return b''.join(s[0] for s in data_segments)
 
 
-def judge(program):
+def judge(program, foreign_le=False):
     """Returns None or (kind, detail)."""
     _self_check()
     ns = sut.load()
@@ -126,13 +126,30 @@ def judge(program):
                  data[pos:pos + 80], segs[min(i, len(segs) - 1)][0][:80]))
 
     # reader side, on the writer's bytes and on the reference bytes
-    for label, blob in (('writer-output', data),
-                        ('reference-output', spec.ref_serialize(program))):
+    blobs = [('writer-output', data),
+             ('reference-output', spec.ref_serialize(program))]
+
+    if foreign_le:
+        # what another producer may write: line_endings left out where the
+        # first line shows it (only used where byte-level detection is
+        # unambiguous)
+        blobs.append(('reference-output-without-line_endings',
+                      spec.ref_serialize(program, omit_detected_le=True)))
+
+    for label, blob in blobs:
         recs, err = sut.read_records(blob)
 
         if err is not None:
             return ('reader-raised:%s' % type(err).__name__,
                     '%s: %r after %d records' % (label, err, len(recs)))
+
+        if label.endswith('without-line_endings'):
+            for r in recs:
+                if spec.kind_of(r.get('section', 'diffx')) in ('preamble',
+                                                                'diff'):
+                    r['options'].setdefault(
+                        'line_endings',
+                        'unix')      # every probe text here is LF-only
 
         res = roundtrip.compare_records(program, recs)
 
@@ -143,7 +160,11 @@ def judge(program):
 
 
 def run_case(program, st):
-    res = judge(program)
+    probe_only = all(kw.get('text', TEXT).startswith(TEXT)
+                     for op, kw in program['calls'] if op == 'preamble')
+    res = judge(program, foreign_le=probe_only and all(
+        kw.get('content') == b'\xe9\xff raw bytes'
+        for op, kw in program['calls'] if op == 'diff'))
     nt = nontrivial_history(program)
     nchanges = sum(1 for op, _ in program['calls'] if op == 'change')
     st.case(program, nontrivial=nt,
@@ -205,7 +226,7 @@ def run_chunk(chunk, st):
     for rest in itertools.product(range(len(per)), repeat=nch - 1):
         history = [per[first]] + [per[i] for i in rest]
         program = history_program(history)
-        res = judge(program)
+        res = judge(program, foreign_le=True)
         evals += 1
 
         if nontrivial_history(program):
